@@ -605,11 +605,46 @@ class CmdLoop(LoopSpec):
         return True
 
 
-def bytesio_env(I, content_lb, tag):
+def bytesio_env(I, content_lb, tag, pos=0):
+    """io.BytesIO: content plus a stream position (a parameter stream handed in by the application may be positioned anywhere
+    in 0..len: freshly constructed, written to, or already read)"""
     e = Env(tag, cls="io.BytesIO")
     e.kind = "BytesIO"
     e.data["content"] = content_lb
+    e.data["pos"] = pos
     return e
+
+
+def _bytesio_call(I, env, method, args, kw):
+    """assumed contract of io.BytesIO's cursor methods (CPython): getvalue() ignores the position; read/tell/seek use it"""
+    content = env.data["content"]
+    n = I._num(content.sym_len(I), "int")
+    pos = I._num(env.data.get("pos", 0), "int")
+    if method == "tell":
+        return SV(pos, "int")
+    if method == "seek":
+        off = I._num(args[0], "int")
+        whence = args[1] if len(args) > 1 else kw.get("whence", 0)
+        if whence not in (0, 1, 2):
+            raise Unsupported("BytesIO.seek with a symbolic whence")
+        newp = off if whence == 0 else (pos + off if whence == 1 else n + off)
+        if whence == 0 and not I.valid(newp >= 0):
+            if I.branch(SV(newp < 0, "bool"), "seek to a negative position"):
+                I.raise_("ValueError", "negative seek value")
+        env.data["pos"] = SV(z3.If(newp < 0, 0, newp), "int")
+        return env.data["pos"]
+    if method == "read":
+        k = args[0] if args else kw.get("size", -1)
+        lo = z3.If(pos > n, n, pos)
+        if k is None or (isinstance(k, int) and k < 0):
+            hi = n
+        else:
+            ke = I._num(k, "int")
+            hi = z3.If(lo + ke > n, n, lo + ke)
+        out = content.sym_slice(I, SV(lo, "int"), SV(hi, "int"), None)
+        env.data["pos"] = SV(z3.If(pos > n, pos, hi), "int")
+        return out
+    return NotImplemented
 
 
 def p2m_config(repo, prefix="C16/"):
@@ -636,8 +671,8 @@ def p2m_config(repo, prefix="C16/"):
                 b = Env(env.path + ".buffer")
                 b.attrs["nbytes"] = env.data["content"].sym_len(I)
                 return b
-            if method in ("tell", "seek"):
-                raise Unsupported("BytesIO cursor methods are not modelled")
+            if method in ("tell", "seek", "read"):
+                return _bytesio_call(I, env, method, args, kw)
         return NotImplemented
     c.env_call = env_call
     return c
@@ -673,7 +708,10 @@ class P2MTask(Task):
                 dsv = bytesio_env(I, LB(), "param-BytesIO-empty")
             else:
                 base, n, lb = ghost_bytes(I, "dataset_bytes", 1)
-                dsv = bytesio_env(I, lb, "param-BytesIO")
+                # the stream position of a data-set parameter is whatever the application left it at
+                pos = I.input("int", "stream_position")
+                I.assume(z3.And(pos.e >= 0, pos.e <= n))
+                dsv = bytesio_env(I, lb, "param-BytesIO", pos)
             # store through the real property getter's backing field: find it by reading it back
             prim.fields["__ds__"] = dsv
         # file-backed (chunked send): only C-STORE requests, and only with the data-set parameter None (call site:
